@@ -155,6 +155,16 @@ class Factory(object):
         d.entries["namespace"] = [self.one_of(None, lambda: self.str(name + ".namespace")), z3.simplify(is_tag) if is_tag is not False else False]
         return d, t
 
+    def strmap(self, name, pair_keys=False, forall=None):
+        """dict with arbitrarily many symbolic entries (string keys, or (ns, local) pairs); `forall(k, v)`
+        gives a z3 condition assumed of every entry."""
+        from .absmap import AbstractMap
+        d = DictV()
+        d.abstract = AbstractMap(self.ctx, self._name(name), pair_keys)
+        if forall is not None:
+            d.abstract.assume_forall(forall)
+        return d
+
     def charset(self, chars):
         return regex2smt.charset_regex(chars)
 
